@@ -16,7 +16,7 @@ def tlc(module, trace):
     r = subprocess.run(["tlc", "-workers", "1", "-metadir", trace + ".meta", "-cleanup", "-noGenerateSpecTE", "-config", module + ".cfg", module + ".tla"],
                        cwd=SPEC, env=env, stdout=subprocess.PIPE, stderr=subprocess.STDOUT, text=True)
     shutil.rmtree(trace + ".meta", ignore_errors=True)
-    return "Model checking completed. No error has been found." in r.stdout and "TRACE-REJECTED" not in r.stdout
+    return "Model checking completed. No error has been found." in r.stdout and "TRACE-REJECTED" not in r.stdout and "SOFT-FAIL" not in r.stdout
 
 def drive(fam, out, extra=(), part="0/40"):
     subprocess.run([VD, fam, "--part", part, "--out", out, *extra], check=True, stdout=subprocess.DEVNULL, stderr=subprocess.DEVNULL)
